@@ -155,6 +155,17 @@ func c08R1(p *core.Program, r *core.Report, pl *pipeline) {
 		// guards
 		facts := pg.FactsAt(rp)
 		force, prevNN, curNN := false, false, false
+		// the Force test may sit in front of the predicate's call instead (`!Force && !changed(pkg)`): what is known
+		// where the predicate is called holds inside it
+		callerFacts := g.FactsAt(g.PointOf(predCall))
+		if node := g.PointOf(predCall).Node(); node != nil {
+			callerFacts = append(callerFacts, shortCircuitFacts(node, predCall)...)
+		}
+		for _, fct := range callerFacts {
+			if fld := core.FieldOf(info, fct.Cond); fld != nil && fld.Name() == "Force" && !fct.Val {
+				force = true
+			}
+		}
 		for _, fct := range facts {
 			if fld := core.FieldOf(pinfo, fct.Cond); fld != nil && fld.Name() == "Force" && !fct.Val {
 				force = true
@@ -581,7 +592,16 @@ func c08R5(p *core.Program, r *core.Report) {
 	// reader: Load itself or a helper of pkg/sumfile it reaches
 	var rd *core.Func
 	var fields []*ast.CallExpr
+	// the reader with its unexported helpers seen in place (a per-line helper returning (path, hash, ok))
+	if fl := flatten(p, ld); fl != ld {
+		if cs := core.CallsTo(fl.Info(), fl.Body, true, "bytes.Fields", "strings.Fields"); len(cs) > 0 {
+			fields, rd = cs, fl
+		}
+	}
 	for f := range reachableFrom(p, ld) {
+		if rd != nil {
+			break
+		}
 		if core.RelPkg(f.Pkg.PkgPath) != "pkg/sumfile" {
 			continue
 		}
@@ -681,8 +701,26 @@ func c08R5(p *core.Program, r *core.Report) {
 				return true
 			}
 			// key = string(parts[0]), value = string(parts[1])
-			idx := func(e ast.Expr) int64 {
+			var idx func(e ast.Expr) int64
+			idx = func(e ast.Expr) int64 {
 				found := int64(-1)
+				// a local that carries the field out of a per-line helper: all its non-constant definitions agree
+				if v := core.VarOf(linfo, e); v != nil && v != parts && !v.IsField() {
+					for _, d := range core.DefsOf(linfo, rd.Body, v) {
+						if d.Rhs == nil || d.Index >= 0 {
+							return -1
+						}
+						if _, isC := core.ConstString(linfo, d.Rhs); isC {
+							continue
+						}
+						k := idx(d.Rhs)
+						if k < 0 || (found >= 0 && k != found) {
+							return -1
+						}
+						found = k
+					}
+					return found
+				}
 				ast.Inspect(e, func(m ast.Node) bool {
 					if pix, ok := m.(*ast.IndexExpr); ok && core.VarOf(linfo, pix.X) == parts && parts != nil {
 						if v, ok := core.ConstInt(linfo, pix.Index); ok {
